@@ -45,7 +45,8 @@ structure XEI (G : XGeo) (mem0 : Array Block) (k : KState) (od : Prop) (acc : By
   e5 : e[5]? = some (mkPtr G.bK G.baseK, .pub)
   e6 : e[6]? = some (mkPtr G.L 0, .pub)
   obj : ∃ X, s.mem[G.bK]? = some ⟨X, G.baseK⟩ ∧ X.size = G.ksz ∧ KObjV X k od
-  hod : k.counter ≠ 1 → od
+  hod : (k.counter ≠ 1 ∨ k.posn.toNat < 32) → od
+  p32 : k.posn.toNat ≤ 32
   out : ∃ XO, s.mem[G.bo]? = some ⟨XO, G.baseo⟩ ∧ XO.size = G.XO0.size ∧ BytesV XO G.oo acc ∧ ∀ q : Nat, (q < G.oo ∨ G.oo + G.n0 ≤ q) → ORel VEq XO[q]? G.XO0[q]?
   loc : ∃ Lb, s.mem[G.L]? = some ⟨Lb, 0⟩ ∧ Lb.size = 56
   inf : G.info = [] ∨ ∃ XI, s.mem[G.bi]? = some ⟨XI, G.basei⟩ ∧ XI.size = G.isz ∧ BytesV XI G.ioff G.info
@@ -97,6 +98,10 @@ theorem XFE.set {G : XGeo} {e : Env} (f : XFE G e) (x : Nat) (v : LVal) (hx : x 
 theorem XEI.fe {G : XGeo} {mem0 : Array Block} {k : KState} {od : Prop} {acc : Bytes} {rem : Nat} {e : Env} {s : St} (x : XEI G mem0 k od acc rem e s) : XFE G e :=
   ⟨x.esz, x.e1, x.e2, x.e5, x.e6⟩
 
+
+theorem u8_min32 (rem : Nat) : ((min 32 rem).toUInt8).toNat ≤ 32 := by
+  have h : min 32 rem < 256 := by omega
+  simp only [Nat.toUInt8, UInt8.toNat_ofNat', Nat.mod_eq_of_lt h]; omega
 
 theorem u8_small (n : Nat) (h : n < 256) : (n % 256 % 256).toUInt8 = n.toUInt8 := by
   rw [Nat.mod_mod, Nat.mod_eq_of_lt h]
@@ -226,7 +231,7 @@ theorem expand_rest (G : XGeo) (mem0 : Array Block) (k : KState) (acc : Bytes) (
     binVal, Ty.modulus, Lab.join_pub_pub, sub64 rem (min 32 rem) (by omega) (by omega) (by omega)]) ?_
   have fe7 := fe6.set 4 (rem - min 32 rem, Lab.pub) (by decide)
   refine ⟨rfl, fe7.1, fe7.2.1, fe7.2.2.1, by rw [get_set_ne _ _ _ _ (by decide)]; exact e6_3, get_set_eq _ _ _ (by rw [fe6.1]; decide), fe7.2.2.2.1, fe7.2.2.2.2,
-    ⟨_, by rw [hm5, getElem?_setBlock', if_pos rfl, hX4]; rfl, by rw [Array.size_setIfInBounds, Array.size_setIfInBounds]; exact hXs, (o1.setPosn _)⟩, fun _ => trivial,
+    ⟨_, by rw [hm5, getElem?_setBlock', if_pos rfl, hX4]; rfl, by rw [Array.size_setIfInBounds, Array.size_setIfInBounds]; exact hXs, (o1.setPosn _)⟩, fun _ => trivial, u8_min32 rem,
     ⟨XO4, by rw [hm5, getElem?_setBlock', if_neg G.hKo.symm]; exact hXO4, hXO4s.trans hXOs, ?_, fun q hq => ?_⟩, ?_, ?_, ?_, by rw [hm5, size_setBlock', hsz4]; exact xi.msz,
     hent5.trans xi.ent, by rw [List.length_append, hlen32]; omega⟩
   · exact bytesV_append_veq' hXOd hXO4d (fun q hq => by rw [hXO4o q (Or.inl hq)]; exact oveq_refl _)
@@ -260,7 +265,7 @@ theorem expandLoop_step (k : KState) (info : Bytes) (rem : Nat) (h : rem ≠ 0) 
 
 /-- what `tinyjambu_hkdf_expand` leaves behind (before its local HMAC state is released) -/
 structure XF (G : XGeo) (mem0 : Array Block) (k : KState) (out : Bytes) (s : St) : Prop where
-  obj : ∃ X od, s.mem[G.bK]? = some ⟨X, G.baseK⟩ ∧ X.size = G.ksz ∧ KObjV X k od
+  obj : ∃ X od, s.mem[G.bK]? = some ⟨X, G.baseK⟩ ∧ X.size = G.ksz ∧ KObjV X k od ∧ ((k.counter ≠ 1 ∨ k.posn.toNat < 32) → od) ∧ k.posn.toNat ≤ 32
   buf : ∃ XO, s.mem[G.bo]? = some ⟨XO, G.baseo⟩ ∧ XO.size = G.XO0.size ∧ BytesV XO G.oo out ∧ ∀ q : Nat, (q < G.oo ∨ G.oo + G.n0 ≤ q) → ORel VEq XO[q]? G.XO0[q]?
   oth : ∀ j, j ≠ G.bK → j ≠ G.bo → j ≠ G.L → ORel BlockEqV s.mem[j]? mem0[j]?
   msz : s.mem.size = G.L + 1
@@ -307,7 +312,7 @@ theorem expand_loop (G : XGeo) (mem0 : Array Block) : ∀ (rem : Nat) (k : KStat
       · simp only [evalE, xi.e4, reduceCtorEq, if_false, castVal_u64_i32_lit 0 (by decide), BinOp.needsPub2, BinOp.needsPub1, Bool.false_and, Bool.or_self, Bool.false_eq_true, binVal,
           Ty.signed, gt_iff_lt, Nat.lt_irrefl, decide_false, b2n, Lab.join_pub_pub]
       · rw [List.append_nil]
-        exact ⟨⟨X, od, hX, hXs, ho⟩, ⟨XO, hXO, hXOs, hXOd, hXOo⟩, xi.oth, xi.msz, xi.ent, by omega⟩
+        exact ⟨⟨X, od, hX, hXs, ho, xi.hod, xi.p32⟩, ⟨XO, hXO, hXOs, hXOd, hXOo⟩, xi.oth, xi.msz, xi.ent, by omega⟩
     · have hpos : 0 < rem := Nat.pos_of_ne_zero h0
       have fe := xi.fe
       have hcgt : evalE e (.bin .gt .u64 (.var 4) (.cast .u64 .i32 (.lit 0))) = .ok (1, .pub) := by
@@ -342,7 +347,7 @@ theorem expand_loop (G : XGeo) (mem0 : Array Block) : ∀ (rem : Nat) (k : KStat
             exact runs_assign (mkPtr G.bo (G.baseo + (G.oo + acc.length)), .pub) (by simp only [evalE, e1_3, reduceCtorEq, if_false]) ⟨rfl, g⟩
         intro e2 s2 ⟨hent2, hm2⟩
         refine runs_ret_some (4294967295, .pub) rfl ⟨Sig.noConfusion, ⟨_, rfl⟩, Or.inr ⟨rfl, rfl⟩, ?_⟩
-        refine ⟨⟨X, od, by rw [hm2, getElem?_setBlock', if_neg G.hKo]; exact hX, hXs, ho⟩, ⟨_, by rw [hm2, getElem?_setBlock', if_pos rfl, hXO]; rfl, by rw [size_writeBytes]; exact hXOs, ?_, fun q hq => ?_⟩,
+        refine ⟨⟨X, od, by rw [hm2, getElem?_setBlock', if_neg G.hKo]; exact hX, hXs, ho, xi.hod, xi.p32⟩, ⟨_, by rw [hm2, getElem?_setBlock', if_pos rfl, hXO]; rfl, by rw [size_writeBytes]; exact hXOs, ?_, fun q hq => ?_⟩,
           fun j hjK hjo hjL => by rw [hm2, getElem?_setBlock', if_neg hjo]; exact xi.oth j hjK hjo hjL, by rw [hm2, size_setBlock']; exact xi.msz, hent2.trans xi.ent,
           by simp [zeros]; omega⟩
         · refine bytesV_append_veq' hXOd (bytesV_writeBytes XO (G.oo + acc.length) _ (zeros rem) (by simp [zeros]) (by simp [zeros]; omega) (fun i b hi => ?_)) (fun q hq => ?_)
@@ -378,7 +383,7 @@ theorem expand_loop (G : XGeo) (mem0 : Array Block) : ∀ (rem : Nat) (k : KStat
               · exact ⟨#[], Or.inl h⟩
               · exact ⟨XI, Or.inr ⟨by rw [hm1]; exact hXI, hXId, hp, by omega, hiK, by rw [hXIs]; exact hlt⟩⟩
           obtain ⟨XI, hIx⟩ := hIx
-          refine expand_mac e1 s1 G.bK G.L X G.baseK k od G.info G.pinfo G.bi G.basei G.ioff XI fe1.1 fe1.2.1 fe1.2.2.1 fe1.2.2.2.1 fe1.2.2.2.2 hX1 ho xi.hod
+          refine expand_mac e1 s1 G.bK G.L X G.baseK k od G.info G.pinfo G.bi G.basei G.ioff XI fe1.1 fe1.2.1 fe1.2.2.1 fe1.2.2.2.1 fe1.2.2.2.2 hX1 ho (fun h => xi.hod (Or.inl h))
             ⟨Lb, by rw [hm1]; exact hLb, hLbs⟩ hIx (by omega) (by rw [hXs]; exact hltK) (by rw [hm1, xi.msz]; omega) expandRest ?_
           intro e2 s2 hfr2 hes2 hent2 hsz2 ⟨X2, hX2, hX2s, ho2⟩ hloc2 hoth2
           have hbo2 : ORel BlockEqV s2.mem[G.bo]? (some ⟨XO, G.baseo⟩) := by
@@ -387,7 +392,7 @@ theorem expand_loop (G : XGeo) (mem0 : Array Block) : ∀ (rem : Nat) (k : KStat
           have xi2 : XEI G mem0 { k with out := hmac k.prk ((if k.counter ≠ 1 then k.out else []) ++ G.info ++ [k.counter]) } True acc rem e2 s2 := by
             refine ⟨hes2, (hfr2 1 (by decide)).trans fe1.2.1, (hfr2 2 (by decide)).trans fe1.2.2.1, (hfr2 3 (by decide)).trans (by rw [he1, get_set_ne _ _ _ _ (by decide)]; exact xi.e3),
               (hfr2 4 (by decide)).trans (by rw [he1, get_set_ne _ _ _ _ (by decide)]; exact xi.e4), (hfr2 5 (by decide)).trans fe1.2.2.2.1, (hfr2 6 (by decide)).trans fe1.2.2.2.2,
-              ⟨X2, hX2, hX2s.trans hXs, ho2⟩, fun _ => trivial, ⟨XO2, hXO2, hXO2s.trans hXOs, bytesV_of_veq hXO2v hXOd, fun q hq =>
+              ⟨X2, hX2, hX2s.trans hXs, ho2⟩, fun _ => trivial, xi.p32, ⟨XO2, hXO2, hXO2s.trans hXOs, bytesV_of_veq hXO2v hXOd, fun q hq =>
                 orel_trans (R := VEq) (fun _ _ _ p r => VEq.trans p r) (hXO2v q) (hXOo q hq)⟩, hloc2, ?_, fun j hjK hjo hjL => ?_, hsz2.trans (by rw [hm1]; exact xi.msz),
               hent2.trans (hent1.trans xi.ent), xi.tot⟩
             · rcases xi.inf with h | ⟨XI', hXI', hXIs', hXId'⟩
